@@ -98,13 +98,20 @@ def gen_case(seed, tier):
     if "@" not in names:
         names.append("@")
     types = rng.sample(Z.TYPES, rng.choice([2, 3, 5]))
+    btree_t = rng.choice([3, 3, 4, 127])
+    wide = rng.random() < 0.3
+    if wide:
+        # many sibling owners (and NS among the types): the node map and the B-tree zone's delegation
+        # index grow beyond one B-tree node, so old versions share inner nodes with new ones
+        names = names + [f"d{i:02d}" for i in range(rng.choice([10, 16, 24]))]
+        types = ["NS", "NS", "NS", "NS", "A"] + sorted(set(types) - {"NS", "A", "CNAME"})[:2]
     cfg = {
         "kind": rng.choice(["versioned", "btree"]),
         "relativize": rng.random() < 0.5,
         "init_policy": rng.choice([None, None, "never", "max3"]),
         "load_replacement": rng.random() < 0.7,
     }
-    base = Z.base_load(rng, rng.choice([1, 4]), names, types)
+    base = Z.base_load(rng, rng.choice([20, 40]) if wide else rng.choice([1, 4]), names, types)
     steps = []
     n = rng.choice([6, 12, 25, 40] if big else [6, 12, 25])
     for _ in range(n):
@@ -129,7 +136,7 @@ def gen_case(seed, tier):
             steps.append({"s": "hostile", "h": rng.randrange(8)})
         else:
             steps.append({"s": "zone_mut"})
-    return {"prop": PROP, "seed": seed, "cfg": cfg, "base": base, "steps": steps}
+    return {"prop": PROP, "seed": seed, "cfg": cfg, "base": base, "steps": steps, "btree_t": btree_t, "empty_rdataset": rng.random() < 0.15}
 
 
 # ---------------------------------------------------------------------------
@@ -193,6 +200,7 @@ class _World:
         self.zone = self.b.zone
         # model: all versions ever (id -> snapshot), retained ids (ordered), readers
         self.all_versions = {}
+        self.derived = {}
         self.serial_of = {}
         first = self.zone._versions[-1].id
         self.all_versions[first] = frozenset()
@@ -201,6 +209,19 @@ class _World:
         self.readers = []  # list of (txn, version id)
         self.model = Z.load_bench(self.b, case["base"], replacement=cfg.get("load_replacement", True))
         self._committed(self.model)
+        if case.get("empty_rdataset"):
+            # an rdataset object without records is accepted by add(); it is then part of every later
+            # snapshot (on an owner no other operation of the history touches) and must be as
+            # immutable as any other
+            import dns.rdataset
+            import dns.rdataclass
+            import dns.rdatatype
+
+            with self.zone.writer() as txn:
+                txn.add(self.b.name_arg("emptyrds", "rel" if self.b.relativize else "abs"), dns.rdataset.Rdataset(dns.rdataclass.IN, dns.rdatatype.TXT))
+            self.model.content[self.b.absname("emptyrds")] = {(16, 0): [0, set()]}
+            self._committed(self.model)
+            self.res.probes.inc("snapshot_contains_an_empty_rdataset")
         self.max_seen_id = self.retained[-1]
 
     def _wrap_policy(self):
@@ -227,8 +248,17 @@ class _World:
         (rid,) = tuple(v[1])
         return Z._soa_serial(self.b)[0](rid)
 
+    def _derived(self, v):
+        """What a B-tree zone version carries besides names and rdatasets."""
+        if not hasattr(v, "delegations"):
+            return None
+        return (tuple((str(n), int(getattr(node, "flags", 0))) for n, node in v.nodes.items()), tuple(str(n) for n in v.delegations))
+
     def _committed(self, m):
         vid = self.retained[-1] + 1
+        newest = self.zone._versions[-1]
+        if newest.id == vid:
+            self.derived[vid] = self._derived(newest)
         self.all_versions[vid] = m.snapshot()
         self.serial_of[vid] = self._serial(m)
         self.retained.append(vid)
@@ -272,6 +302,14 @@ class _World:
             got = b.snap_nodes(v.nodes)
             if got != self.all_versions[v.id]:
                 Z.compare("C11:version-content-changed", b, got, self.all_versions[v.id], f"{what}: retained version {v.id}")
+        for v in list(z._versions) + [t.version for t, _ in self.readers]:
+            if self.derived.get(v.id) is not None:
+                try:
+                    now = self._derived(v)
+                except Exception as e:  # noqa: BLE001
+                    raise Violation("C11:version-content-changed", f"{what}: walking flags / delegation index of version {v.id} raises {type(e).__name__}: {e}")
+                if now != self.derived[v.id]:
+                    raise Violation("C11:version-content-changed", f"{what}: flags or delegation index of version {v.id} changed after it was published ({len(self.derived[v.id][1])} -> {len(now[1])} delegation points)")
         rel = tuple(i - newest for i in ids)
         self.res.state(rel, tuple(sorted(v - newest for _, v in self.readers)), self.policy_name)
 
@@ -501,7 +539,12 @@ class _World:
             targets.append(("delegations", version.delegations))
         names = list(version.nodes.keys())
         rng.shuffle(names)
-        for name in names[:3]:
+        names = names[:3]
+        if self.case.get("empty_rdataset"):
+            en = self.b.name_arg("emptyrds", "rel" if self.b.relativize else "abs")
+            if en in version.nodes and en not in names:
+                names.append(en)
+        for name in names:
             for label, node in (
                 ("node(get_node)", txn.get_node(name)),
                 ("node(version.nodes)", version.nodes[name]),
@@ -510,8 +553,11 @@ class _World:
                 if node is None:
                     continue
                 targets.append((label, node))
+                # the containers behind a node and an rdataset are reachable too
+                targets.append(("container(node.rdatasets)", node.rdatasets))
                 for rds in list(node.rdatasets)[:2]:
                     targets.append(("rdataset(" + label + ")", rds))
+                    targets.append(("container(rdataset.items)", rds.items))
             for rds in list(version.nodes[name].rdatasets)[:1]:
                 got = txn.get(name, rds.rdtype, rds.covers)
                 if got is not None:
@@ -790,6 +836,8 @@ def _run_conc(case, res, log):
 def run_case(case, keep_log=False):
     res = RunResult()
     log = EventLog(keep=keep_log)
+    if Z.set_btree_branching(case.get("btree_t")) < 127:
+        res.faults.inc("btree_branching_factor_lowered")
     if case.get("mode") == "conc":
         try:
             _run_conc(case, res, log)
